@@ -994,6 +994,13 @@ func newAddrExpr(args []*internal.Elem) *ast.UnaryExpr {
 }
 
 func zeroCompositeLit(p *Package, typ types.Type, typ0 *types.Type) *ast.CompositeLit {
+	if typ0 != nil && *typ0 != typ {
+		// named or alias type: write T{}. The literal of the underlying type is not always
+		// assignable to T (a struct of another package with unexported fields).
+		return &ast.CompositeLit{
+			Type: toType(p, *typ0),
+		}
+	}
 	return &ast.CompositeLit{
 		Type: toType(p, typ),
 	}
